@@ -48,7 +48,7 @@ Definition hexnl (w : N) : text :=
   else hex4 w.
 
 (* ---- separators *)
-Fixpoint join (sep : text) (l : list text) : text :=
+Fixpoint join {A} (sep : list A) (l : list (list A)) : list A :=
   match l with
   | [] => []
   | [x] => x
@@ -72,28 +72,30 @@ Fixpoint groups (b : bytes) : list N :=
   | _ => []
   end.
 
-(* length of the run of zero groups at the head of g *)
-Fixpoint zrun (g : list N) : nat :=
-  match g with
-  | 0 :: r => S (zrun r)
+(* length of the run of zero groups at the head (m: which groups are zero) *)
+Fixpoint zrun (m : list bool) : nat :=
+  match m with
+  | true :: r => S (zrun r)
   | _ => O
   end.
 
 (* (start, length) of the leftmost among the longest zero runs; length 0 if none *)
-Fixpoint best_run (g : list N) (pos : nat) (best : nat * nat) : nat * nat :=
-  match g with
+Fixpoint best_run (m : list bool) (pos : nat) (best : nat * nat) : nat * nat :=
+  match m with
   | [] => best
-  | _ :: r => let n := zrun g in
+  | _ :: r => let n := zrun m in
               best_run r (S pos) (if Nat.ltb (snd best) n then (pos, n) else best)
   end.
 
-(* RFC 5952: 4.1 no leading zeros, 4.2.1 shorten as much as possible, 4.2.2 never
-   shorten a single zero group, 4.2.3 leftmost of equal runs, 4.3 lower case *)
-Definition ip6_plain (g : list N) : text :=
-  let '(s, n) := best_run g O (O, O) in
-  if Nat.ltb n 2 then join [COLON] (map hexnl g)
-  else join [COLON] (map hexnl (firstn s g)) ++ [COLON; COLON]
-       ++ join [COLON] (map hexnl (skipn (s + n) g)).
+(* RFC 5952: 4.2.1 shorten as much as possible, 4.2.2 never shorten a single zero group,
+   4.2.3 leftmost of equal runs.  m: which groups are zero, ts: the groups' texts, colon: ':' *)
+Definition render {A} (colon : A) (m : list bool) (ts : list (list A)) : list A :=
+  let '(s, n) := best_run m O (O, O) in
+  if Nat.ltb n 2 then join [colon] ts
+  else join [colon] (firstn s ts) ++ [colon; colon] ++ join [colon] (skipn (s + n) ts).
+
+(* 4.1 no leading zeros, 4.3 lower case: hexnl *)
+Definition ip6_plain (g : list N) : text := render COLON (map (N.eqb 0) g) (map hexnl g).
 
 (* IPv4-mapped IPv6: ::ffff:a.b.c.d *)
 Definition is4in6 (b : bytes) : bool :=
